@@ -146,7 +146,7 @@ Ltac cb_step call :=
   | |- pres _ (bind _ _) =>
       eapply pres_bind;
       [ first [ cb_prim | call tt ]; eassumption
-      | let a := fresh "a" in let s1 := fresh "s" in let Hq := fresh "Hq" in intros a s1 Hq; cbv beta ]
+      | let a := fresh "a" in let s1 := fresh "s" in let Hq := fresh "Hq" in intros a s1 Hq; cbv beta in Hq |- * ]
   | |- pres ?Q (let x := set ?f ?v ?s in @?b x) =>
       match goal with
       | H : fext ?W ?s0 s |- _ =>
